@@ -66,16 +66,38 @@ func linearIn(e *Expr, v string) (bool, *Expr) {
 
 // first index node s[v + c] (outside old(...)) with s free of v; falls back to one inside old(...)
 func findPrimaryIndex(body *Expr, v string) (prim, sl, off *Expr) {
+	var nested []string // variables bound by quantifiers nested inside the one being transformed
 	var walk func(e *Expr, inOld bool, wantOld bool)
 	walk = func(e *Expr, inOld bool, wantOld bool) {
 		if e == nil || prim != nil {
 			return
 		}
 		if e.Op == "forall" || e.Op == "exists" {
+			// an occurrence s[v + c] inside a nested quantifier still counts, as long as the nested quantifier
+			// does not rebind v and the occurrence does not mention the nested variables
+			for _, b := range e.Vars {
+				if b.Name == v {
+					return
+				}
+			}
+			save := len(nested)
+			for _, b := range e.Vars {
+				nested = append(nested, b.Name)
+			}
+			for _, a := range e.Args {
+				walk(a, inOld, wantOld)
+			}
+			nested = nested[:save]
 			return
 		}
 		if e.Op == "idx" && inOld == wantOld && !mentionsVar(e.Args[0], v) {
-			if ok, c := linearIn(e.Args[1], v); ok {
+			free := true
+			for _, nv := range nested {
+				if mentionsVar(e.Args[0], nv) || mentionsVar(e.Args[1], nv) {
+					free = false
+				}
+			}
+			if ok, c := linearIn(e.Args[1], v); ok && free {
 				prim, sl, off = e, e.Args[0], c
 				return
 			}
